@@ -94,6 +94,10 @@ pub struct SpellOpts {
     pub star_comments: bool,
     /// blanks only (no line breaks / comments) – mild C01 spelling
     pub mild: bool,
+    /// comments that look like OSCAT description markers / blocks (text preprocessor): 0 = none so
+    /// far (lone END markers and whole blocks with blank bodies allowed), 1 = a lone DESCRIPTION
+    /// marker was written (only further lone DESCRIPTION markers are safe), 255 = feature off
+    pub oscat_phase: std::cell::Cell<u8>,
 }
 
 impl SpellOpts {
@@ -110,6 +114,7 @@ impl SpellOpts {
             tight_trivia: false,
             star_comments: false,
             mild: false,
+            oscat_phase: std::cell::Cell::new(255),
         }
     }
     pub fn mild() -> Self {
@@ -128,6 +133,7 @@ impl SpellOpts {
             tight_trivia: false,
             star_comments: false,
             mild: false,
+            oscat_phase: std::cell::Cell::new(0),
         }
     }
 }
@@ -159,10 +165,36 @@ fn respell_case(s: &str, t: &mut Tape) -> String {
 const COMMENT_BODIES: &[&str] = &[
     "", " ", " c ", "x", " a comment ", " ( nested-looking ) ", " (not (* really ", " a * b ", " ** ",
     " IF x THEN ", " END_IF ", " ; ", " 'str' ", " \"s\" ", " 1..2 ", " := ", " % ", " ? ", " // ",
+    // characters that mean something to other languages' preprocessors (pragmas, C comments)
+    " { ", " } ", "{", "}", " {x} ", " /* ", " */ ", " # ", " @KEY@ ",
 ];
+pub const OSCAT_OPEN_MARK: &str = "(*@KEY@:DESCRIPTION*)";
+pub const OSCAT_CLOSE_MARK: &str = "(*@KEY@:END_DESCRIPTION*)";
 const NON_ASCII_BODIES: &[&str] = &[" é ", " ÄÖÜ ", " €uro ", " ß→∑ ", " 漢字 ", " 😀 "];
 
 fn comment(t: &mut Tape, o: &SpellOpts) -> String {
+    // comments that are OSCAT description markers (the text preprocessor blanks from the first
+    // DESCRIPTION marker to the first END_DESCRIPTION marker after it): only arrangements that
+    // remove no code are written - lone END markers and whole blocks with a blank body first, then
+    // lone DESCRIPTION markers
+    let phase = o.oscat_phase.get();
+    if phase != 255 && t.ratio(1, 14) {
+        if phase == 0 {
+            match t.below(4) {
+                0 => return OSCAT_CLOSE_MARK.to_string(),
+                1 | 2 => {
+                    let body = *t.pick(&["", " ", "\n", "  \n ", "(* d *)", " (* version 1 *)\n"]);
+                    return format!("{}{}{}", OSCAT_OPEN_MARK, body, OSCAT_CLOSE_MARK);
+                }
+                _ => {
+                    o.oscat_phase.set(1);
+                    return OSCAT_OPEN_MARK.to_string();
+                }
+            }
+        } else {
+            return OSCAT_OPEN_MARK.to_string();
+        }
+    }
     let mut body = String::new();
     let n = 1 + t.below(2);
     for _ in 0..n {
